@@ -54,6 +54,7 @@ type Engine struct {
 	overlaySrc  map[string][]byte
 	validateEvery int64
 	prefixIntr  []prefixIntrinsic
+	params      map[string]int64
 }
 
 type LoadConfig struct {
@@ -581,6 +582,11 @@ func (e *Engine) runPath(sess *Session, h *ssa.Function, prefix []int32, wantSam
 			if wantSample {
 				if rr, m := ex.safeModel(); rr == Sat {
 					res.SampleModel = m
+					obs := append([]string(nil), res.Observed...)
+					for _, ot := range ex.obsTerms {
+						obs[ot.idx] = fmt.Sprintf("%s=%d", ot.name, evalTerm(ot.t, m))
+					}
+					res.Observed = obs
 				}
 			}
 		}
